@@ -2,7 +2,7 @@
 import re
 from fractions import Fraction as Fr
 
-from . import alg, sym, poly
+from . import facts, alg, sym, poly
 from .common import Session, check_value, check_ref, impl_methods
 from .sym import Struct, Tuple, Ite, Opaque
 from .poly import RatFunc
@@ -18,6 +18,27 @@ EXPLANATION = (
 )
 
 HUES = ["LabHue", "LuvHue", "RgbHue", "OklabHue", "Cam16Hue"]
+
+
+def check_narrowing_order(F, rep):
+    """CAST-LAST: the angle algebra treats `x as f32` as the identity on the reals.  A narrowing cast of an angle (f64 -> f32) drops up to 29
+    bits; done *before* normalisation it drops them from the whole angle (1000000.3 becomes 1000000.3125: the fraction of the result is
+    wrong), done last it costs one rounding of the normal form.  In hues.rs / angle.rs every f64 -> f32 cast is the last operation of
+    its body."""
+    n = 0
+    for b in F.bodies:
+        if not b["file"].endswith(("palette/src/hues.rs", "palette/src/angle.rs")) or "::test" in b["path"] or b["dk"] not in ("Fn", "AssocFn"):
+            continue
+        body = b["body"]
+        tail = body.get("e") if body.get("k") == "block" and not body.get("s") else None
+        for node, parents in facts.walk(body):
+            if node.get("k") == "cast" and isinstance(node.get("e"), dict) and isinstance(node["e"].get("t"), int) \
+                    and F.S[node["e"]["t"]] == "f64" and F.S[node["t"]] == "f32":
+                n += 1
+                key = b["path"]
+                rep.ob("CAST-LAST", key, node is tail or node is body, "f64 -> f32 cast %s the last operation of the body" % ("is" if (node is tail or node is body) else "is NOT"),
+                       F.loc(b, node), nontrivial=False)
+    rep.floor("narrowing casts of angles", n, 6)
 
 
 def run(F, rep, tier="quick", extra=None, only=None):
@@ -176,6 +197,7 @@ def run(F, rep, tier="quick", extra=None, only=None):
                     check_value(rep, "SHAPE-OP", key, SH, b, v, mk(SH.ev.binop(op, a0, a1)))
                 except (Opaque, poly.TooBig) as ex:
                     rep.fail("SHAPE-OP", key, "uninterpretable: %s" % ex, F.loc(b))
+    check_narrowing_order(F, rep)
     return {"level": "other"}
 
 
